@@ -15,12 +15,17 @@ theorem all_tied : ∀ s ∈ methods, tied s = true := by decide +kernel
 /-- every `Send`/`Sync` impl (hand-written or synthesised) demands what the auto-trait rules demand -/
 theorem all_bounds_sufficient : ∀ i ∈ markerImpls, boundsSufficient i = true := by decide +kernel
 
+/-- exclusive access (`&mut V`, a mutable iterator) is only ever handed out against an exclusive borrow of the cache:
+    no `&self` method returns it, so safe code cannot hold two live `&mut` to one value -/
+theorem exclusive_needs_exclusive_borrow :
+    ∀ s ∈ methods, s.exclOut = true → s.recv = .refMut ∨ (s.recv = .value ∧ s.ty = .refMutRawLRU) := by decide +kernel
+
 /-- a lifetime parameter declared on the function itself is never tied (the pre-repair `peek_lru_mut<'a>`) -/
 theorem fnParam_untied (s : Sig) (h : Origin.fnParam ∈ s.outs) : tied s = false := by
   unfold tied
   rw [Bool.eq_false_iff]
   intro hall
-  have := List.all_eq_true.1 hall _ h
+  have := List.all_eq_true.1 (Bool.and_eq_true_iff.1 hall).1 _ h
   simp [Origin.tiedTo] at this
 
 /-- the table is not empty and covers all five caches -/
@@ -30,6 +35,9 @@ theorem table_covers : methods.length ≥ 100 ∧ markerImpls.length ≥ 20 ∧
 
 /-- non-vacuity: the pre-repair signature of `peek_lru_mut` is rejected by `tied` -/
 example : tied { ty := .RawLRU, trait := "", method := "peek_lru_mut", recv := .refMut, outs := [.fnParam, .fnParam], selfSealed := true } = false := by
+  decide
+/-- non-vacuity: `get_mru_mut(&self) -> Option<(&K, &mut V)>` (exclusive result from a shared borrow) is rejected -/
+example : tied { ty := .RawLRU, trait := "", method := "get_mru_mut", recv := .ref, outs := [.elided, .elided], selfSealed := true, exclOut := true } = false := by
   decide
 /-- non-vacuity: pre-repair bounds of the shared iterators are rejected -/
 def preRepairIterSend : MarkerImpl :=
